@@ -10,7 +10,9 @@ NOTE = ("Trusted: z3/cvc5; the pyvc VC generator (symex/values/arrays/contract);
         "(pyvc/stubs.py, rotation.py); machine floats as reals, fixed-width ints as integers; termination not proved. ")
 CLAIMED = {
     "C01": ("DESIGN.md section 2 / C01",
-            "Deductive, any number of molecules (summarised loops) and all SO(3) orientations: LoaderBase._post_align and "
+            "Deductive, any number of molecules (summarised loops) and all SO(3) orientations: LoaderBase.align end to end for "
+            "the four models (task i aligns sub-volume i with range max_shifts/scale px and molecule i's pose; molecule i is "
+            "moved by task i's shift and carries its score; the loader is not modified); LoaderBase._post_align and "
             "_post_align_multi_templates (label column, modulo the template count) turn "
             "result i into pos_i + scale*M_i s_i and M_i R_i with score/shift features of result i and the molecule's own "
             "feature row kept; Molecules.linear_transform / translate_internal / rotate_by_rotvec_internal implement "
